@@ -1538,7 +1538,7 @@ class Engine:
             if name in ('notify', 'notify_all', 'acquire', 'release', 'set', 'clear',
                         'start', 'join', 'add', 'remove', 'discard', 'append',
                         'debug', 'info', 'warning', 'error', 'critical', 'exception',
-                        'wait', 'cancel', 'close'):
+                        'wait', 'cancel', 'close', 'write'):
                 oid = obj.oid
                 def effect(eng, args, kwargs, st, node, _n=name, _o=oid):
                     if _o is None or not str(_o).endswith('_logger'):
